@@ -37,7 +37,9 @@ pub fn states() -> Vec<St> {
     (1, 0, 1), (2, 0, 1), (3, 0, 2), (70000, 0, 3), (70001, 0, 3)] { v.push(St::File { size, fill, t }); }
   let dirs: Vec<(Vec<&'static [u8]>, u64)> = vec![(vec![], 1u64), (vec![b"a"], 1), (vec![b"a", b"b"], 1), (vec![b"ab"], 1), (vec![b"a", b"b"], 2), (vec![b"ba"], 2), (vec![b"b", b"a"], 3),
     // names that are not valid UTF-8 and differ only in such a byte
-    (vec![b"gen_\xFF.o"], 4), (vec![b"gen_\xFE.o"], 4)];
+    (vec![b"gen_\xFF.o"], 4), (vec![b"gen_\xFE.o"], 4),
+    // names containing a line feed that splits into the names of another listing (in either enumeration order)
+    (vec![b"a\nb"], 1), (vec![b"b\na"], 1)];
   for (names, t) in dirs { v.push(St::Dir { names, t }); }
   v
 }
